@@ -16,12 +16,12 @@ def Consistent (ω : Oracle A Q) : List (Ev A Q) → List (Ev A Q) → Prop
   | h, .act a :: es => Consistent ω (h ++ [.act a]) es
   | h, .asked q v :: es => ω h q = v ∧ Consistent ω (h ++ [.asked q v]) es
 
-@[simp] theorem run_emit (ω : Oracle A Q) (a : A) (k : Tree A Q) (h : List (Ev A Q)) :
+@[simp] theorem run_emit (ω : Oracle A Q) (a : A) (k : Tree A Q Leaf) (h : List (Ev A Q)) :
     (Tree.emit a k).run ω h =
       (.act a :: (k.run ω (h ++ [.act a])).1, (k.run ω (h ++ [.act a])).2) := by
   simp [Tree.run]
 
-theorem run_ask (ω : Oracle A Q) (q : Q) (kt kf : Tree A Q) (h : List (Ev A Q)) (v : Bool)
+theorem run_ask (ω : Oracle A Q) (q : Q) (kt kf : Tree A Q Leaf) (h : List (Ev A Q)) (v : Bool)
     (hv : ω h q = v) :
     (Tree.ask q kt kf).run ω h =
       (.asked q v :: ((if v then kt else kf).run ω (h ++ [.asked q v])).1,
@@ -29,10 +29,10 @@ theorem run_ask (ω : Oracle A Q) (q : Q) (kt kf : Tree A Q) (h : List (Ev A Q))
   cases v <;> simp [Tree.run, hv]
 
 @[simp] theorem run_leaf (ω : Oracle A Q) (l : Leaf) (h : List (Ev A Q)) :
-    (Tree.leaf l : Tree A Q).run ω h = ([], l) := by
+    (Tree.leaf l : Tree A Q Leaf).run ω h = ([], l) := by
   simp [Tree.run]
 
-theorem run_mem_paths (ω : Oracle A Q) (t : Tree A Q) (h : List (Ev A Q)) :
+theorem run_mem_paths (ω : Oracle A Q) (t : Tree A Q Leaf) (h : List (Ev A Q)) :
     t.run ω h ∈ t.paths := by
   induction t generalizing h with
   | emit a k ih =>
@@ -46,7 +46,7 @@ theorem run_mem_paths (ω : Oracle A Q) (t : Tree A Q) (h : List (Ev A Q)) :
     | false => right; exact ⟨_, ihf _, rfl⟩
   | leaf l => simp [Tree.paths]
 
-theorem run_consistent (ω : Oracle A Q) (t : Tree A Q) (h : List (Ev A Q)) :
+theorem run_consistent (ω : Oracle A Q) (t : Tree A Q Leaf) (h : List (Ev A Q)) :
     Consistent ω h (t.run ω h).1 := by
   induction t generalizing h with
   | emit a k ih => simp only [run_emit, Consistent]; exact ih _
@@ -59,7 +59,7 @@ theorem run_consistent (ω : Oracle A Q) (t : Tree A Q) (h : List (Ev A Q)) :
   | leaf l => simp [Consistent]
 
 theorem sync_run (ω : Oracle A Q) :
-    ∀ (lag : List (Ev A Q)) (t t' : Tree A Q) (h : List (Ev A Q)),
+    ∀ (lag : List (Ev A Q)) (t t' : Tree A Q Leaf) (h : List (Ev A Q)),
       sync lag t = some t' → Consistent ω h lag →
       t.run ω h = (lag ++ (t'.run ω (h ++ lag)).1, (t'.run ω (h ++ lag)).2) := by
   intro lag
@@ -103,14 +103,14 @@ theorem sync_run (ω : Oracle A Q) :
       | leaf l => simp [sync] at hs
 
 /-- What `joint` promises about the two actual runs from a common history. -/
-def JointPost (ω : Oracle A Q) (h : List (Ev A Q)) (tA tB : Tree A Q) (p : PS A Q) : Prop :=
+def JointPost (ω : Oracle A Q) (h : List (Ev A Q)) (tA tB : Tree A Q Leaf) (p : PS A Q) : Prop :=
   p.a = (tA.run ω h).2.cfg ∧ p.b = (tB.run ω h).2.cfg ∧
   (if p.aLeads then
       (tA.run ω h).1 = (tB.run ω h).1 ++ p.lag ∧ Consistent ω (h ++ (tB.run ω h).1) p.lag
     else
       (tB.run ω h).1 = (tA.run ω h).1 ++ p.lag ∧ Consistent ω (h ++ (tA.run ω h).1) p.lag)
 
-theorem joint_leaf_left (ω : Oracle A Q) (l : Leaf) (t : Tree A Q) (h : List (Ev A Q)) :
+theorem joint_leaf_left (ω : Oracle A Q) (l : Leaf) (t : Tree A Q Leaf) (h : List (Ev A Q)) :
     ∃ p ∈ (t.paths.map fun p => (⟨l.cfg, p.2.cfg, p.1, false⟩ : PS A Q)),
       JointPost ω h (.leaf l) t p := by
   refine ⟨⟨l.cfg, (t.run ω h).2.cfg, (t.run ω h).1, false⟩, ?_, ?_⟩
@@ -119,7 +119,7 @@ theorem joint_leaf_left (ω : Oracle A Q) (l : Leaf) (t : Tree A Q) (h : List (E
       if_false, true_and]
     exact run_consistent ω t h
 
-theorem joint_leaf_right (ω : Oracle A Q) (l : Leaf) (t : Tree A Q) (h : List (Ev A Q)) :
+theorem joint_leaf_right (ω : Oracle A Q) (l : Leaf) (t : Tree A Q Leaf) (h : List (Ev A Q)) :
     ∃ p ∈ (t.paths.map fun p => (⟨p.2.cfg, l.cfg, p.1, true⟩ : PS A Q)),
       JointPost ω h t (.leaf l) p := by
   refine ⟨⟨(t.run ω h).2.cfg, l.cfg, (t.run ω h).1, true⟩, ?_, ?_⟩
@@ -128,7 +128,7 @@ theorem joint_leaf_right (ω : Oracle A Q) (l : Leaf) (t : Tree A Q) (h : List (
     exact run_consistent ω t h
 
 theorem joint_run (ω : Oracle A Q) :
-    ∀ (tA tB : Tree A Q) (succs : List (PS A Q)) (h : List (Ev A Q)),
+    ∀ (tA tB : Tree A Q Leaf) (succs : List (PS A Q)) (h : List (Ev A Q)),
       joint tA tB = some succs → ∃ p ∈ succs, JointPost ω h tA tB p := by
   intro tA
   induction tA with
@@ -337,7 +337,7 @@ theorem rel_init (ω : Oracle A Q) (M N : SM A Q) :
     Rel ω (initPS M N) [] [] (some M.start) (some N.start) := by
   simp [Rel, initPS, Consistent]
 
-theorem sync_leaf_some {lag : List (Ev A Q)} {l : Leaf} {t : Tree A Q}
+theorem sync_leaf_some {lag : List (Ev A Q)} {l : Leaf} {t : Tree A Q Leaf}
     (h : sync lag (.leaf l) = some t) : lag = [] := by
   cases lag with
   | nil => rfl
